@@ -430,6 +430,50 @@ def main(q: qubit, r: qubit) -> None:\n    with control(q):\n        return
 def main(q: qubit, r: qubit) -> None:\n    while True:\n        with control(q):\n            break
 def main(q: qubit, r: qubit) -> None:\n    while True:\n        with control(q,\n                r):\n            continue
 def main(q: qubit, r: qubit) -> None:\n    with control(q,\n                 r), dagger:\n        return
+def main(x: int) -> int:\n    """doc"""
+def main(x: int) -> None:\n    """doc"""
+def main(x: int) -> int:\n    def f() -> int:\n        "doc"\n    return f()
+def main(x: int) -> float:\n    return -1e999
+def main(x: int) -> float:\n    y = 1e999\n    return 0.0
+def main(x: int) -> float:\n    return comptime(1e999)
+def main(x: int) -> float:\n    return 1e308 * 10.0
+def main(x: int) -> None:\n    fs = array(ident)
+def main(x: int) -> None:\n    fs = array(head, head)
+def main(x: int) -> None:\n    fs = array(keep, keep)
+def main(x: int) -> None:\n    fs = array(Box, Box)
+def main(x: int) -> None:\n    fs = (ident, 1)[0](x)
+def main(x: int) -> None:\n    f = ident if x else ident
+def main(x: int) -> None:\n    f = ident\n    g = f(f)
+def main(x: int) -> None:\n    f = first((ident, 1))
+def main(x: int) -> None:\n    f = some(ident).unwrap()
+def main(x: int) -> None:\n    f = keep(ident)
+def main(x: int) -> None:\n    f = head(array(ident))
+def main(x: int) -> None:\n    xs = array(x for x in range(3) async for y in range(2))
+def main(x: int) -> None:\n    xs = [x async for x in range(3)]
+def main(x: int) -> None:\n    xs = [await x for x in range(3)]
+def main(x: int) -> None:\n    xs = array(x for x in range(3) if (yield))
+def main(x: int) -> None:\n    xs = array(x for x.y in range(3))
+def main(x: int) -> None:\n    xs = array(x for x[0] in range(3))
+def main(x: int) -> None:\n    xs = array(x for *x, y in array((1, 2)))
+def main(x: int) -> None:\n    xs = array(1 for _ in range(3) for _ in range(2))
+def main(x: int) -> None:\n    xs = array(lambda: 1 for _ in range(3))
+def main(x: int) -> None:\n    xs = array(x for x in range(3))[5]
+def main(x: int) -> None:\n    xs = array(x for x in range(-1))
+def main(x: int) -> None:\n    xs = array(x for x in range(2 ** 40))
+def main(x: int) -> None:\n    xs = array(x for x in range(3, 1))
+def main(x: int) -> None:\n    xs = array(x for x in range(0, 10, 3))
+def main(x: int) -> None:\n    xs = array(x for x in range(comptime(3)))
+def main(x: int) -> None:\n    xs = array(x for x in range(True))
+def main(a: qubit, b: qubit, t: qubit) -> None:\n    with control(a,\n                 b), dagger:\n        h(t)\n        return
+def main(a: qubit, b: qubit, t: qubit) -> None:\n    for i in range(2):\n        with control(a), power(2,\n        ):\n            break
+def main(a: qubit, b: qubit, t: qubit) -> None:\n    with control(a), \\n         dagger:\n        return
+def main(x: int) -> int:\n    return (x +\n            "a")
+def main(x: int) -> int:\n    y = ident(x,\n              x)\n    return y
+def main(x: int) -> int:\n    if x:\n        if x:\n            if x:\n                if x:\n                    return (x +\n                            "a")\n    return x
+def main(x: int) -> int:\n    if x:\n        if x:\n            if x:\n                if x:\n                    return x + "a"\n    return x
+def main(x: int) -> int:\n    y = "é" + x\n    return y
+def main(x: int) -> int:\n    é = 1\n    return é + "a"
+def main(x: int) -> int:\n\tif x:\n\t\treturn x + "a"\n\treturn x
 '''
 
-PROBES = [PRE + "@guppy\n" + line.replace("\\n", "\n") + "\n" for line in _P.strip().split("\n")]
+PROBES = [PRE + "@guppy\n" + line.replace("\\n", "\n").replace("\\t", "\t") + "\n" for line in _P.strip().split("\n")]
